@@ -565,7 +565,7 @@ Proof.
     apply orb_false_iff in V; destruct V as [V ?]. apply negb_false_iff in V.
     destruct (add_to_gauge cfg s u (mk_coins raw) g) eqn:C; [|discriminate]. inversion H; subst.
     eapply add_to_gauge_inv; eauto; [unfold MODULE; lia|apply mk_coins_pos; auto|apply mk_coins_sorted].
-  - unfold create_lock in H. destruct (amt <=? 0) eqn:A; [discriminate|]. inversion H; subst.
+  - unfold create_lock in H. destruct ((amt <=? 0) || (u <? 0)) eqn:A; [discriminate|]. apply orb_false_iff in A. destruct A as [A _]. inversion H; subst.
     apply with_locks_inv; auto. apply Forall_app. split; [apply (I_locks _ I)|]. constructor; [cbn; lia|constructor].
   - unfold add_to_lock in H. destruct (find_lock (s_locks s) id) as [l|] eqn:F; [|discriminate].
     destruct (amt <=? 0) eqn:A; [discriminate|]. inversion H; subst.
@@ -584,6 +584,7 @@ Proof.
     apply with_locks_inv; auto. unfold del_lock. apply filter_Forall. apply (I_locks _ I).
   - unfold set_receiver in H. destruct (find_lock (s_locks s) id) as [l|] eqn:F; [|discriminate].
     pose proof (find_lock_pos _ _ _ (I_locks _ I) F) as Lp.
+    destruct (to <? 0); [discriminate|].
     cbv zeta in H. match type of H with context [if ?c then Err E_LOCK else _] => destruct c end; [discriminate|]. inversion H; subst.
     apply with_locks_inv; auto. apply set_lock_pos; [apply (I_locks _ I)|cbn; lia].
   - inversion H; subst. destruct I. constructor; cbn; auto.
